@@ -326,6 +326,8 @@ def gen_fault_spec(rng, pname, stream, bad=False):
     spec = {'root': root, 'depth': rng.choice([0, 0, 1, 2]), 'natural': False}
     if root != 'Fault' and rng.random() < 0.4:
         spec['natural'] = True          # the class's own constructor decides code and message
+        if rng.random() < 0.5 and root in NATURAL_ALT:
+            spec['argv'] = rng.randrange(12)
         if rng.random() < 0.5:
             spec['detail'] = gen_detail(rng, pname, False)
         return spec
@@ -337,10 +339,33 @@ def gen_fault_spec(rng, pname, stream, bad=False):
     return spec
 
 
+# the resource / field / value handed to a dedicated error is the caller's: a tuple key, a number, a dict,
+# None are all legal there (the classes format it with %r / into their message)
+NATURAL_ALT = {
+    'ResourceNotFoundError': [(('users', 42),), ((7,),), (None,), ({'id': 1},), (3.5,), ('100%',)],
+    'RespawnError': [(('pool', 'w1'),), (None,)],
+    'ResourceAlreadyExistsError': [(('users', 42),), (None,), ('100%',), ((7,),)],
+    'MissingFieldError': [(('a', 'b'),), ('100%',)],
+    'ValidationError': [(('a', 'b'),), (None,), ('100%',), ((7,),)],
+    'InternalError': [(('a', 'b'),), ('100%',), (None,)],
+}
+CONSTRUCT_FAILED = []
+
+
+def natural_args(spec):
+    alts = NATURAL_ALT.get(spec['root'], [])
+    i = spec.get('argv')
+    return alts[i % len(alts)] if (i is not None and alts) else NATURAL_ARGS[spec['root']]
+
+
 def build_fault(spec):
     cls = make_class(None, spec['root'], spec['depth'])
     if spec.get('natural'):
-        e = cls(*NATURAL_ARGS[spec['root']])
+        try:
+            e = cls(*natural_args(spec))
+        except Exception as x:
+            CONSTRUCT_FAILED.append((spec['root'], repr(natural_args(spec)), type(x).__name__))
+            raise
         if 'detail' in spec:
             e.detail = spec['detail']
         return e
@@ -769,8 +794,16 @@ class Runner(object):
         for tr in transports:
             w = self.world(pname, {'wsgi': 'http', 'server': 'json', 'loopback': 'same'}[tr])
             w.arm(None if kind == 'none' else site, maker, retval)
+            del CONSTRUCT_FAILED[:]
             res = getattr(w, tr)(method, chunked)
             raised = w.box.get('raised')
+            if CONSTRUCT_FAILED:
+                root, args, exn = CONSTRUCT_FAILED[0]
+                self.check.fail('C09|%s|constructor|%s' % (root, exn),
+                                'user code could not even raise %s%s: its constructor raised %s, so the client gets the '
+                                'generic Server fault instead of the documented fault and status' % (root, args, exn),
+                                {'spec': spec, 'protocol': pname, 'site': site})
+                continue
             results[tr] = (res, raised)
             self.check.count((tr, pname, site, kind, chunked, json.dumps(spec, sort_keys=True, default=repr)))
             self.stat('%s/%s/%s' % (tr, kind, site_class(site) if kind != 'none' else 'return'))
@@ -806,7 +839,10 @@ class Runner(object):
         elif res[0] == 'partial':
             # start_response was called, these bytes were handed over, then the iterable raised
             sent = res[3].decode('utf8', 'replace')
-            if res[4] is not raised:
+            # (PEP 479: a StopIteration raised inside a generator leaves it as RuntimeError from that StopIteration)
+            same = res[4] is raised or (isinstance(raised, StopIteration) and isinstance(res[4], RuntimeError)
+                                        and res[4].__cause__ is raised)
+            if not same:
                 sent = '<the response iterable raised %s, not what user code raised>' % type(res[4]).__name__
             obs, wire = '(Ok (%s, (WPartial %s)))' % (gz(status_number(res[1])), gtext(sent)), None
         else:
@@ -1017,6 +1053,10 @@ def fixed_cases():
         {'root': 'ValidationError', 'depth': 0, 'natural': True}, {'root': 'ResourceAlreadyExistsError', 'depth': 0, 'natural': True},
         {'root': 'InvalidInputError', 'depth': 0, 'natural': True},
     ]
+    # every dedicated error with every kind of resource / field / value argument (tuple keys, None, dicts, '%')
+    for root, alts in sorted(NATURAL_ALT.items()):
+        for i in range(len(alts)):
+            specs.append({'root': root, 'depth': 0, 'natural': True, 'argv': i})
     return specs
 
 
